@@ -398,7 +398,9 @@ let monitors id (label : sx) (pre : istate) (post : istate) (dl : (n * n * n * r
         match actor with
         | Some (ta, ia) when ta = t && ia = app1 ->
           (match find_assoc (ta, ia) qprops with
-           | Some p when int_of_n p.p_prev = app0 && (p.p_apply = Some Doing || p.p_abort = Some Doing) -> ()
+           (* Apply-Doing (OK answer or refusal), Abort-Doing, or Apply-Failed: the re-run of a refusal that was cut
+              between the proposal write and the configuration write completes the move (C02_applied_moves_by_successor) *)
+           | Some p when int_of_n p.p_prev = app0 && (p.p_apply = Some Doing || p.p_abort = Some Doing || p.p_apply = Some Failed) -> ()
            | Some p -> specviol id "c02_apply_order" (Printf.sprintf "target %d applied %d->%d by proposal with prev=%s apply=%s abort=%s" t app0 app1 (sn p.p_prev) (s_ph p.p_apply) (s_ph p.p_abort))
            | None -> specviol id "c02_apply_order" "unknown proposal")
         | _ -> specviol id "c02_apply_order" (Printf.sprintf "target %d applied index %d->%d not by proposal %d" t app0 app1 app1)
